@@ -19,7 +19,7 @@ PROPERTY = "C03"
 LEVEL = "model_checking"
 
 
-def solve_once(cfg, answer):
+def solve_once(cfg, answer, pre=0):
     """-> dict with what Solve did, observed through the problem log and a recording listener"""
     order = []
     rec = Recorder(on_iter=lambda pts, sol: order.extend((p.GetX(), p.GetZ()) for p in pts))
@@ -30,6 +30,8 @@ def solve_once(cfg, answer):
         out["error"] = f"Solver cannot be constructed: {type(e).__name__}: {e}"
         return out
     try:
+        if pre:
+            run.step(pre)      # the iterations up to the stop moment made through the step-wise API, then Solve
         sol = run.solve()
     except BaseException as e:
         out["error"] = f"Solve raised {type(e).__name__}: {e}"
@@ -129,6 +131,19 @@ def block(task):
                 for m in msgs:
                     viol.append(dict(driver="quotient", cfg=c, alphabet=alphabet, choices=list(leaf), eps=eps,
                                      itersLimit=L, message=m, sig=dict(kind="quotient")))
+                if not msgs and not o["error"] and o["n"] >= 1:
+                    # the same stop moment reached through DoGlobalIteration(n): Solve finds the criterion already
+                    # satisfied and must not add a trial (never later), report the same count and accuracy
+                    o2 = solve_once(c, tree.scripted(leaf, alphabet, default), pre=o["n"])
+                    stats["runs"] += 1
+                    m2, _ = judge(c, o2, L, eps)
+                    if not o2["error"] and not m2 and (o2["n"], o2["acc"]) != (o["n"], o["acc"]):
+                        m2 = [f"[late] DoGlobalIteration({o['n']}) then Solve: {o2['n']} trials, accuracy {o2['acc']!r}; Solve "
+                              f"alone stops after {o['n']} trials with accuracy {o['acc']!r}"]
+                    for m in m2:
+                        viol.append(dict(driver="quotient", cfg=c, alphabet=alphabet, choices=list(leaf), eps=eps,
+                                         itersLimit=L, pre=o["n"], message="after DoGlobalIteration(%d): %s" % (o["n"], m),
+                                         sig=dict(kind="quotient")))
         if len(viol) > 30:
             break
     stats["outcomes"] = sorted(stats["outcomes"])
@@ -226,4 +241,10 @@ def replay(rec):
         return [v["message"] for v in viol]
     o = solve_once(cfg, tree.scripted(rec["choices"], rec["alphabet"], rec["alphabet"][0]))
     msgs, _ = judge(cfg, o, cfg["itersLimit"], cfg["eps"])
+    if rec.get("pre") and not msgs and not o["error"]:
+        o2 = solve_once(cfg, tree.scripted(rec["choices"], rec["alphabet"], rec["alphabet"][0]), pre=rec["pre"])
+        msgs, _ = judge(cfg, o2, cfg["itersLimit"], cfg["eps"])
+        if not o2["error"] and not msgs and (o2["n"], o2["acc"]) != (o["n"], o["acc"]):
+            msgs = [f"DoGlobalIteration({rec['pre']}) then Solve: {o2['n']} trials, accuracy {o2['acc']!r}; Solve alone: "
+                    f"{o['n']} trials, accuracy {o['acc']!r}"]
     return msgs
